@@ -18,7 +18,13 @@ RULE = (
     "enumeration of ALL alignments of the pair (Delannoy many; for local every alignment of every substring "
     "pair), cross-checked per key by an independent O(nm) DP. A case is non-trivial when both sequences are "
     "non-empty, the call returned at least one non-empty alignment and the optimum is not attained solely by "
-    "a gap-free alignment (a gap column is optimal or >= 2 distinct alignments tie)."
+    "a gap-free alignment (a gap column is optimal or >= 2 distinct alignments tie). Audit families (kind "
+    "'audit'): object flavours (read-only / strided code arrays, Sequence subclass, sequence alphabet merely extended by "
+    "the matrix alphabet, matrices from int16/int64/Fortran/read-only/non-contiguous arrays, dicts in two insertion "
+    "orders, double transposition; NucleotideSequence / ProteinSequence with the library matrices) - all pairs of "
+    "length 1..2 through the complete oracle; argument-order mirror (a, b, M) vs (b, a, M.transpose()); aliasing / "
+    "reuse / refused calls (differential); max_number just below / at / above the number of optima, the default and "
+    "1683 optima; sequences of 120..257 symbols against the reference DP."
 )
 ASSUMPTIONS = [
     "matrix entries stay far from the int32 range (largest entry 100000); sums that overflow int32 are not explored",
@@ -28,6 +34,9 @@ ASSUMPTIONS = [
     "evaluated for the first 25 distinct traces per (pair, matrix, gap, mode)",
     "uint32/uint64 codes are produced by a GeneralSequence subclass whose public `code` has the wider dtype "
     "(an alphabet that needs such codes would need a > 16 GB matrix)",
+    "audit families: read-only code arrays are legal input (the statement says 'any two sequences'); the number of "
+    "returned alignments == min(max_number, number of optima) and mirror-image trace sets for swapped arguments are "
+    "part of the strengthening (own signatures strengthening_count / strengthening_mirror_traces_differ)",
     "the 'complete set of optimal alignments' comparison (max_number=1000) is stronger than the statement and is "
     "reported under its own signature (strengthening_all_optima); for local alignments the expected set is "
     "the Smith-Waterman one (every proper prefix scores > 0; affine: ends with a pair) and is only compared "
@@ -110,6 +119,8 @@ def shards(tier, seed):
             out.append({"kind": "width", "k": [2, 2], "len": L["width"], "dtypes": [d1, d2], "variant": v0,
                         "embed": seed % 4, "w": 200})
     out.append({"kind": "refuse", "variant": v0, "embed": seed % 4, "w": 1})
+    for sub in ("flavours", "library", "mirror", "alias", "counts", "long"):
+        out.append({"kind": "audit", "sub": sub, "variant": v0, "embed": seed % 4, "w": 50})
     out.sort(key=lambda s: -s["w"])
     for s in out:
         del s["w"]
@@ -158,8 +169,18 @@ class Key:
         self.rescore = {}
 
 
-def check_call(ctx, env, l1, l2, gap, mode, max_number, key=None, either=False):
-    """Run align_optimal once and compare.  Returns the Key (for re-use)."""
+def _exc_mode(env, e):
+    """Failure mode for an exception on a legal input (a read-only code array gets its own name)."""
+    if getattr(env, "seq_flavour", "") == "readonly_code" and isinstance(e, ValueError) and "read-only" in str(e):
+        return "readonly_code_refused"
+    return "exception_%s" % type(e).__name__
+
+
+def check_call(ctx, env, l1, l2, gap, mode, max_number, key=None, either=False, exact_count=False):
+    """Run align_optimal once and compare.  Returns the Key (for re-use).
+    max_number=None: the argument is left out (documented default 1000).
+    exact_count: additionally compare the number of returned alignments with min(max_number, number of optima)
+    (part of the strengthening)."""
     import biotite.sequence.align as balign
 
     from mc.models import align as A
@@ -169,9 +190,13 @@ def check_call(ctx, env, l1, l2, gap, mode, max_number, key=None, either=False):
     s1, s2 = env.seq(1, l1), env.seq(2, l2)
     if key is None:
         key = Key(c1, c2, env.mat, gap, mode)
+    passed_mn = max_number
+    if max_number is None:
+        max_number = 1000
+
     def mkcase():
         return {"kind": "opt", **env.describe(), "s1": list(l1), "s2": list(l2), "gap": I.gap_json(gap),
-                "mode": mode, "max_number": max_number}
+                "mode": mode, "max_number": passed_mn, "exact_count": exact_count}
 
     cls = "%s|%s" % (mode, I.gap_class(gap))
     if either:
@@ -182,14 +207,23 @@ def check_call(ctx, env, l1, l2, gap, mode, max_number, key=None, either=False):
 
     ctx.ev(1, 0)
     try:
-        res = balign.align_optimal(s1, s2, env.matrix, gap_penalty=gap, max_number=max_number, **_mode_kwargs(mode))
+        if passed_mn is None:
+            res = balign.align_optimal(s1, s2, env.matrix, gap_penalty=gap, **_mode_kwargs(mode))
+        else:
+            res = balign.align_optimal(s1, s2, env.matrix, gap_penalty=gap, max_number=max_number,
+                                       **_mode_kwargs(mode))
     except Exception as e:  # noqa: BLE001
         if either:
             ctx.count("unspecified_raised")
             ctx.outcome(("exc", type(e).__name__))
             return key
-        viol("exception_%s" % type(e).__name__, "legal input raised %s: %s" % (type(e).__name__, str(e)[:200]),
-             "a list of alignments", type(e).__name__)
+        fm = _exc_mode(env, e)
+        if fm == "readonly_code_refused":
+            ctx.violation("align_optimal|readonly_code_refused|any", "a sequence whose code array is read-only is "
+                          "refused: %s" % str(e)[:100], mkcase(), "a list of alignments", type(e).__name__)
+        else:
+            viol(fm, "legal input raised %s: %s" % (type(e).__name__, str(e)[:200]),
+                 "a list of alignments", type(e).__name__)
         return key
     ctx.count("unspecified_returned" if either else "accepted")
     if not isinstance(res, list) or len(res) == 0:
@@ -254,7 +288,16 @@ def check_call(ctx, env, l1, l2, gap, mode, max_number, key=None, either=False):
         viol("duplicates", "non-empty alignments are not pairwise distinct", "distinct",
              [[list(c) for c in t] for t in traces][:6])
     # strengthening: the complete set of optima
-    if max_number == 1000 and key.expected_all is not None and not either:
+    if exact_count and key.expected_all is not None and not either:
+        exp = key.expected_all
+        got = set(traces)
+        want = min(max_number, len(exp))
+        if len(res) != want or not (got <= exp) or len(got) != len(res):
+            ctx.violation("align_optimal|strengthening_count|%s" % cls,
+                          "number of returned alignments differs from min(max_number, number of optimal alignments) "
+                          "(stronger than the statement)", mkcase(), [want, len(exp)], [len(res), len(got)])
+        ctx.count("optimal_counts_compared")
+    elif max_number == 1000 and key.expected_all is not None and not either:
         exp = key.expected_all
         got = set(traces)
         if len(exp) <= 1000 and got != exp:
@@ -299,6 +342,8 @@ def run_shard(shard, ctx):
     from mc.models import align_inputs as I
 
     kind = shard["kind"]
+    if kind == "audit":
+        return run_audit(shard, ctx)
     if kind == "refuse":
         env = I.Env(2, 2, "std", shard["variant"], shard["embed"])
         for l1 in I.sequences(2, 2, 1):
@@ -349,6 +394,255 @@ def run_shard(shard, ctx):
                           {"kind": "mutated", **env.describe(), "which": bad[:3]}, None, None)
 
 
+# ---------------------------------------------------------------------------
+# dimension audit families
+# ---------------------------------------------------------------------------
+AUDIT_GAPS = [-1, 0, (-2, -1)]
+LONG_PAIR = (120, 131)
+
+
+def long_letters(n, which):
+    """Sequence 1: an 11-periodic pattern; sequence 2: the same with substitutions, a deletion and an insertion."""
+    pat = (0, 0, 1, 0, 1, 1, 0, 1, 1, 1, 0)
+    base = [pat[i % len(pat)] for i in range(n + 8)]
+    if which == 2:
+        for pos in (20, 64, 99, 100):
+            base[pos % len(base)] ^= 1
+        del base[37]
+        base.insert(80 % len(base), 1 - base[80 % len(base)])
+    return tuple(base[:n])
+
+
+def _call(env, l1, l2, gap, mode, mn=1000):
+    import biotite.sequence.align as balign
+
+    return balign.align_optimal(env.seq(1, l1), env.seq(2, l2), env.matrix, gap_penalty=gap, max_number=mn,
+                                **_mode_kwargs(mode))
+
+
+def audit_flavours(ctx, envs, max_len):
+    """Every object flavour goes through the complete oracle."""
+    from mc.models import align_inputs as I
+
+    for env in envs:
+        for l1 in I.sequences(env.k1, max_len, 1):
+            for l2 in I.sequences(env.k2, max_len, 1):
+                for gap in AUDIT_GAPS:
+                    for mode in MODES:
+                        check_call(ctx, env, l1, l2, gap, mode, 1000)
+        bad = env.mutated()
+        if bad:
+            ctx.violation("align_optimal|inputs_mutated|flavour", "an input sequence was modified",
+                          {"kind": "mutated", **env.describe(), "which": bad[:3]}, None, None)
+
+
+def audit_mirror(ctx, shard):
+    """align(a, b, M) and align(b, a, M.transpose()): same score; with max_number=1000 the mirrored trace set."""
+    import biotite.sequence.align as balign
+
+    from mc.models import align_audit as AU
+    from mc.models import align_inputs as I
+
+    for k1, k2, fam, ln in ((2, 2, "asym", 3), (2, 3, "rect", 2)):
+        env = I.Env(k1, k2, fam, shard["variant"], shard["embed"])
+        mt = env.matrix.transpose()
+        for l1 in I.sequences(k1, ln, 1):
+            for l2 in I.sequences(k2, ln, 1):
+                for gap in AUDIT_GAPS:
+                    for mode in MODES:
+                        ctx.ev(2, 1)
+                        case = {"kind": "mirror", **env.describe(), "s1": list(l1), "s2": list(l2),
+                                "gap": I.gap_json(gap), "mode": mode}
+                        cls = "%s|%s" % (mode, I.gap_class(gap))
+                        try:
+                            a = AU.result_key(_call(env, l1, l2, gap, mode))
+                            b = AU.result_key(balign.align_optimal(env.seq(2, l2), env.seq(1, l1), mt, gap_penalty=gap,
+                                                                   max_number=1000, **_mode_kwargs(mode)))
+                        except Exception as e:  # noqa: BLE001
+                            ctx.violation("align_optimal|mirror_exception_%s|%s" % (type(e).__name__, cls),
+                                          "swapped call raised", case, None, str(e)[:100])
+                            continue
+                        ctx.outcome(("mirror", a[0][0] if a else None, len(a)))
+                        if {x[0] for x in a} != {x[0] for x in b}:
+                            ctx.violation("align_optimal|mirror_score_differs|%s" % cls,
+                                          "align(a, b, M) and align(b, a, M.transpose()) report different scores", case,
+                                          sorted({x[0] for x in a}), sorted({x[0] for x in b}))
+                        elif len(a) < 1000 and len(b) < 1000 and set(a) != set(AU.mirror(b)):
+                            ctx.violation("align_optimal|strengthening_mirror_traces_differ|%s" % cls,
+                                          "the trace sets of the two argument orders are not mirror images (stronger "
+                                          "than the statement)", case, sorted(a)[:3], sorted(AU.mirror(b))[:3])
+
+
+def audit_alias(ctx, shard):
+    """Inputs untouched; result objects independent of each other, of later calls and of align.score();
+    state after a refused call."""
+    import biotite.sequence.align as balign
+
+    from mc.models import align_audit as AU
+    from mc.models import align_inputs as I
+
+    env = I.Env(2, 2, "zero", shard["variant"], shard["embed"])
+    env2 = I.Env(2, 2, "asym", shard["variant"], shard["embed"])
+    for e in (env, env2):
+        for l1 in I.sequences(2, 2, 1):
+            for l2 in I.sequences(2, 3, 1):
+                for gap in AUDIT_GAPS:
+                    for mode in MODES:
+                        ctx.ev(4, 1)
+                        case = {"kind": "alias", **e.describe(), "s1": list(l1), "s2": list(l2),
+                                "gap": I.gap_json(gap), "mode": mode}
+                        cls = "%s|%s" % (mode, I.gap_class(gap))
+
+                        def viol(fm, what, exp=None, obs=None):
+                            ctx.violation("align_optimal|%s|%s" % (fm, cls), what, case, exp, obs)
+
+                        before = AU.snapshot(e, l1, l2)
+                        res = _call(e, l1, l2, gap, mode)
+                        ref = AU.result_key(res)
+                        if AU.snapshot(e, l1, l2) != before:
+                            viol("inputs_modified", "the call modified a sequence code or the matrix")
+                            continue
+                        if AU.traces_share_memory(res):
+                            viol("results_share_memory", "two returned alignments share their trace memory")
+                            continue
+                        # align.score() must not change the alignment it scores
+                        for a in res[:3]:
+                            if a.trace.shape[0] and e is env2:
+                                balign.score(a, e.matrix, gap_penalty=gap, terminal_penalty=(mode != "semi"))
+                        if AU.result_key(res) != ref:
+                            viol("score_function_modifies_alignment", "align.score() changed the alignment it was given",
+                                 ref[:2], AU.result_key(res)[:2])
+                            continue
+                        # refused calls in between, then the same valid call again
+                        try:
+                            _call(e, l1, l2, 1, mode)
+                            viol("not_refused", "positive gap penalty accepted")
+                        except Exception:  # noqa: BLE001
+                            pass
+                        try:
+                            _call(e, l1, l2, gap, mode, 0)
+                            viol("not_refused", "max_number=0 accepted")
+                        except Exception:  # noqa: BLE001
+                            pass
+                        res2 = _call(e, l1, l2, gap, mode)
+                        if AU.result_key(res2) != ref:
+                            viol("second_call_differs", "the same call gives another result after refused calls", ref[:2],
+                                 AU.result_key(res2)[:2])
+                            continue
+                        # the caller overwrites the second result: the first one and later calls are unaffected
+                        AU.scribble(res2)
+                        if AU.result_key(res) != ref:
+                            viol("results_of_two_calls_share_state", "overwriting the result of a later call changed an "
+                                 "earlier result", ref[:2], AU.result_key(res)[:2])
+                        elif AU.result_key(_call(e, l1, l2, gap, mode)) != ref:
+                            viol("second_call_differs", "the same call gives another result after an earlier result was "
+                                 "overwritten by the caller")
+                        elif AU.snapshot(e, l1, l2) != before:
+                            viol("inputs_modified", "a refused call modified a sequence code or the matrix")
+                        ctx.outcome(("alias", len(ref)))
+
+
+def audit_counts(ctx, shard):
+    """max_number just below / at / just above the number of optimal alignments; the default; more optima than
+    the default of 1000."""
+    from mc.models import align_inputs as I
+
+    for fam in ("zero", "ident", "std"):
+        env = I.Env(2, 2, fam, shard["variant"], shard["embed"])
+        for l1 in I.sequences(2, 3, 1):
+            for l2 in I.sequences(2, 3, 1):
+                for gap in (0, -1, (0, 0), (-1, 0)):
+                    for mode in MODES:
+                        key = Key(env.codes(1, l1), env.codes(2, l2), env.mat, gap, mode)
+                        if key.expected_all is None:
+                            continue
+                        nopt = len(key.expected_all)
+                        for mn in sorted({max(1, nopt - 1), nopt, nopt + 1, 3}):
+                            check_call(ctx, env, l1, l2, gap, mode, mn, key, exact_count=True)
+                        check_call(ctx, env, l1, l2, gap, mode, None, key, exact_count=True)
+    # 1683 optimal global alignments (all of them): default limit 1000 and a limit above
+    env = I.Env(2, 2, "zero", shard["variant"], shard["embed"])
+    l = (0, 1, 0, 1, 1)
+    for mode in ("global", "semi"):
+        for gap in (0, (0, 0)):
+            key = Key(env.codes(1, l), env.codes(2, l), env.mat, gap, mode)
+            ctx.count("many_optima_%d" % len(key.expected_all))
+            for mn in (None, 999, 1000, 1001, 1682, 1683, 1684, 5000):
+                check_call(ctx, env, l, l, gap, mode, mn, key, exact_count=True)
+
+
+def audit_long(ctx, shard):
+    """Sequences far beyond the enumerable lengths; oracle: reference DP score, validity, rescoring."""
+    import biotite.sequence.align as balign
+
+    from mc.models import align as A
+    from mc.models import align_inputs as I
+
+    env = I.Env(2, 2, "std", shard["variant"], shard["embed"])
+    for n, m in (LONG_PAIR, LONG_PAIR[::-1], (257, 40)):
+        l1, l2 = long_letters(n, 1), long_letters(m, 2)
+        c1, c2 = env.codes(1, l1), env.codes(2, l2)
+        for gap in (-2, (-3, -1)):
+            for mode in MODES:
+                ctx.ev(1, 1)
+                case = {"kind": "long", **env.describe(), "n": n, "m": m, "gap": I.gap_json(gap), "mode": mode}
+                cls = "%s|%s|long" % (mode, I.gap_class(gap))
+
+                def viol(fm, what, exp=None, obs=None):
+                    ctx.violation("align_optimal|%s|%s" % (fm, cls), what, case, exp, obs)
+
+                opt = A.dp_opt(c1, c2, env.mat, gap, mode)
+                try:
+                    res = _call(env, l1, l2, gap, mode, 3)
+                except Exception as e:  # noqa: BLE001
+                    viol("exception_%s" % type(e).__name__, "legal input raised", None, str(e)[:100])
+                    continue
+                if not res or len(res) > 3:
+                    viol("too_many" if res else "no_result", "wrong number of alignments", "1..3", len(res))
+                    continue
+                seen = set()
+                for a in res:
+                    t = I.trace_cols(a.trace)
+                    sc = int(a.score)
+                    if sc != opt:
+                        viol("score_above_optimum" if sc > opt else "score_below_optimum",
+                             "reported score differs from the optimum (reference DP)", opt, sc)
+                        break
+                    prob = A.trace_problem(t, n, m, mode != "local")
+                    if prob:
+                        viol("invalid_trace", "returned trace is not a valid alignment: " + prob)
+                        break
+                    ms = A.score_cols(t, c1, c2, env.mat, gap, mode != "semi")
+                    bs = int(balign.score(a, env.matrix, gap_penalty=gap, terminal_penalty=(mode != "semi")))
+                    if ms != sc or bs != sc:
+                        viol("rescore_model" if ms != sc else "rescore_align_score",
+                             "score recomputed from the trace differs", sc, [ms, bs])
+                        break
+                    if t in seen:
+                        viol("duplicates", "alignments are not pairwise distinct")
+                        break
+                    seen.add(t)
+                ctx.outcome(("long", n, m, mode, opt, len(res)))
+
+
+def run_audit(shard, ctx):
+    from mc.models import align_audit as AU
+
+    sub = shard["sub"]
+    if sub == "flavours":
+        audit_flavours(ctx, AU.flavour_envs(shard["variant"], shard["embed"]), 2)
+    elif sub == "library":
+        audit_flavours(ctx, [AU.LibEnv("nucleotide"), AU.LibEnv("protein")], 2)
+    elif sub == "mirror":
+        audit_mirror(ctx, shard)
+    elif sub == "alias":
+        audit_alias(ctx, shard)
+    elif sub == "counts":
+        audit_counts(ctx, shard)
+    elif sub == "long":
+        audit_long(ctx, shard)
+
+
 def crash_class(case):
     if isinstance(case, dict):
         return "align_optimal|%s|%s" % (case.get("mode"), "empty_sequence")
@@ -360,12 +654,17 @@ def replay(case, ctx):
 
     if case.get("kind") == "mutated":
         return
-    k1, k2 = case["k"]
-    d1, d2 = case.get("dtypes", ["uint8", "uint8"])
-    env = I.Env(k1, k2, case["fam"], case["variant"], case["embed"], d1, d2)
+    if case.get("kind") in ("mirror", "alias", "long"):
+        sh = {"variant": case["variant"], "embed": case["embed"]}
+        {"mirror": audit_mirror, "alias": audit_alias, "long": audit_long}[case["kind"]](ctx, sh)
+        return
+    from mc.models import align_audit as AU
+
+    env = AU.make_env(case)
     l1, l2 = tuple(case["s1"]), tuple(case["s2"])
     if case["kind"] == "refuse":
         check_refuse(ctx, env, l1, l2, {k: I.gap_from_json(v) for k, v in case["kwargs"].items()}, case["label"])
         return
     either = len(l1) == 0 or len(l2) == 0
-    check_call(ctx, env, l1, l2, I.gap_from_json(case["gap"]), case["mode"], case["max_number"], None, either)
+    check_call(ctx, env, l1, l2, I.gap_from_json(case["gap"]), case["mode"], case["max_number"], None, either,
+               case.get("exact_count", False))
